@@ -215,6 +215,13 @@ def grid(ctx):
         for iso in extreme:
             for p in stress:
                 jobs.append((iso, p[0], p[1]))
+        # every pair of option values (covering array over the option families and horizons) for one country that rotates with the seed
+        from lib import lpcheck as _lp
+        pw = pipeline.pairwise_sets(_lp.OPTION_SPACE, ctx.rng, base=pipeline.BASE_OPTIONS)
+        iso_pw = ctx.rng.choice(isos)
+        for j, o in enumerate(pw):
+            jobs.append((iso_pw, "pairwise:%d" % j, o))
+        ctx.extra["pairwise_option_sets"] = {"country": iso_pw, "sets": len(pw)}
         others = [p for p in presets if not p[0].startswith("yaml:")]
         target = len(jobs) + 40
         while len(jobs) < target:
@@ -224,11 +231,24 @@ def grid(ctx):
         for name, o, countries in presets:
             for iso in isos:
                 jobs.append((iso, name, o))
+        from lib import lpcheck as _lp
+        pw = pipeline.pairwise_sets(_lp.OPTION_SPACE, ctx.rng, base=pipeline.BASE_OPTIONS)
+        for iso in ctx.rng.sample(isos, 8):
+            for j, o in enumerate(pw):
+                jobs.append((iso, "pairwise:%d" % j, o))
     return presets, jobs
 
 
 def judge(ctx, r):
     case = {"country": r["iso"], "preset": r["preset"]}
+    if r["preset"].startswith("pairwise:"):
+        # two-option combinations are outside the property's grid (shipped, documented and SINGLE-option variations): explored and counted, never a violation
+        # of C16 (a rejected combination of supported values is C13's business, a missing supply series C08's)
+        ctx.count("pairwise:" + ("completed" if not r["error"] else "failed:" + r["error"].split(":")[0]))
+        if r["error"]:
+            ctx.notes.append("outside the grid: %s under a two-option combination does not complete: %s" % (r["iso"], r["error"][:160]))
+        ctx.case((r["iso"], r["preset"]), nontrivial=r["solves"] > 0)
+        return
     fam = r["preset"].split(":")[0] + ":" + r["preset"].split(":")[1].split("=")[0]
     if r["error"]:
         kind = r["error"].split(":")[0]
